@@ -108,11 +108,15 @@ def _cost(x):
     return float(x) if "." in x else int(x)
 
 
-def parse_spec(spec, np_ints=False):
+def parse_spec(spec, np_ints=False, sub=False):
     """spec: class words as in the Lean driver. Returns a zero-argument constructor.  `np_ints`: every integer
-    argument is handed over as a numpy integer (what a client computing its sizes with numpy passes)."""
+    argument is handed over as a numpy integer (what a client computing its sizes with numpy passes).  `sub`: the
+    object is an instance of a trivial client SUBCLASS of the schedule class (nothing overridden)."""
     w = spec.split()
     k = w[0]
+
+    def C(cls):
+        return type("Client" + cls.__name__, (cls,), {}) if sub else cls
     if np_ints:
         import numpy
 
@@ -121,25 +125,25 @@ def parse_spec(spec, np_ints=False):
     else:
         I = int         # noqa: E741
     if k == "SM":
-        return lambda: cs.SingleMemoryStorageSchedule()
+        return lambda: C(cs.SingleMemoryStorageSchedule)()
     if k == "SD":
-        return lambda: cs.SingleDiskStorageSchedule(move_data=bool(int(w[1])))
+        return lambda: C(cs.SingleDiskStorageSchedule)(move_data=bool(int(w[1])))
     if k == "NO":
-        return lambda: cs.NoneCheckpointSchedule()
+        return lambda: C(cs.NoneCheckpointSchedule)()
     if k == "TL":
-        return lambda: cs.TwoLevelCheckpointSchedule(
+        return lambda: C(cs.TwoLevelCheckpointSchedule)(
             I(w[1]), I(w[2]), binomial_storage=ST_OF[w[3]], binomial_trajectory=w[4])
     if k == "MS":
-        return lambda: cs.MultistageCheckpointSchedule(I(w[1]), I(w[2]), I(w[3]), trajectory=w[4])
+        return lambda: C(cs.MultistageCheckpointSchedule)(I(w[1]), I(w[2]), I(w[3]), trajectory=w[4])
     if k == "MX":
         def mk():
-            return cs.MixedCheckpointSchedule(I(w[1]), I(w[2]), storage=ST_OF[w[3]])
+            return C(cs.MixedCheckpointSchedule)(I(w[1]), I(w[2]), storage=ST_OF[w[3]])
         return mk
     if k in ("RV", "DR", "PD"):
-        cls = {"RV": cs.Revolve, "DR": cs.DiskRevolve, "PD": cs.PeriodicDiskRevolve}[k]
+        cls = C({"RV": cs.Revolve, "DR": cs.DiskRevolve, "PD": cs.PeriodicDiskRevolve}[k])
         return lambda: cls(I(w[1]), I(w[2]), *[_cost(x) for x in w[3:7]])
     if k == "HR":
-        return lambda: cs.HRevolve(I(w[1]), I(w[2]), I(w[3]), *[_cost(x) for x in w[4:8]])
+        return lambda: C(cs.HRevolve)(I(w[1]), I(w[2]), I(w[3]), *[_cost(x) for x in w[4:8]])
     raise ValueError(spec)
 
 
@@ -234,10 +238,26 @@ def canon_trace(spec, nfin, k, max_actions=2000000):
             nfin_arg = numpy.int64(nfin)
         else:
             nfin_arg = nfin
+        # every seventh configuration is an instance of a trivial client subclass; every eleventh one reaches the
+        # driver through a deepcopy / pickle round trip of the not yet started object (a client that ships the
+        # schedule to a worker, or keeps a pristine copy): none of this may change a single action or attribute
+        quiet = os.environ.get("VERIF_NO_COMPANY") == "1"
+        sub_mode = sum(map(ord, spec)) % 7 == 3 and not quiet
+        ship_mode = (sum(map(ord, spec)) + nfin) % 11 in (4, 9) and not quiet
         try:
-            o = parse_spec(spec, np_ints=np_mode)()
+            o = parse_spec(spec, np_ints=np_mode, sub=sub_mode)()
         except Exception as e:
             return ["X construct " + exc_name(e)]
+        if ship_mode:
+            try:
+                import copy
+                import pickle
+                if sub_mode or (sum(map(ord, spec)) + nfin) % 11 == 4:
+                    o = copy.deepcopy(o)
+                else:
+                    o = pickle.loads(pickle.dumps(o))
+            except Exception as e:
+                return ["B ship-" + exc_name(e)]
         lines.append("I " + flags(o))
         lines.append(uses_line(o))
         if os.environ.get("VERIF_NO_COMPANY") != "1" and sum(map(ord, spec)) % 4 == 1:
@@ -360,7 +380,20 @@ def canon_trace(spec, nfin, k, max_actions=2000000):
                     lines.append(uses_line(o))
                     break
         if journal:
+            import pickle
             for idx, a in journal:
+                if idx % 2 == 1:
+                    # the journal was written to disk and read back; an action also differs from anything that is
+                    # not an action of its kind (comparison never raises)
+                    try:
+                        a2 = pickle.loads(pickle.dumps(a))
+                        if not (a2 == a) or (a2 != a) or a == idx or a == cs.EndForward() and not isinstance(a, cs.EndForward):
+                            lines[idx] = "B action-roundtrip " + repr(a)
+                            continue
+                        a = a2
+                    except Exception as e:
+                        lines[idx] = "B action-roundtrip-" + exc_name(e)
+                        continue
                 ca = canon_action(a)
                 tail = lines[idx].split(" | ", 1)[1] if " | " in lines[idx] else ""
                 lines[idx] = ("A " + ca + " | " + tail) if ca is not None else ("B badaction " + repr(a))
